@@ -75,10 +75,11 @@ const (
 	pShortRead
 	pSleepCancelled
 	pStubbornIgnoredCancel
+	pLateWrite
 	nProbes
 )
 
-var probeNames = [nProbes]string{"reader-blocked-on-empty-pipe", "writer-blocked-on-full-pipe", "fifo-open-blocked-waiting-for-peer", "blocked-read-woken-by-deadline", "write-to-pipe-without-reader", "unannounced-goroutine-scheduled", "short-pipe-read", "sleeping-command-cancelled", "command-ignored-cancellation"}
+var probeNames = [nProbes]string{"reader-blocked-on-empty-pipe", "writer-blocked-on-full-pipe", "fifo-open-blocked-waiting-for-peer", "blocked-read-woken-by-deadline", "write-to-pipe-without-reader", "unannounced-goroutine-scheduled", "short-pipe-read", "sleeping-command-cancelled", "command-ignored-cancellation", "output-of-a-job-left-over-from-an-earlier-program"}
 
 //go:norace
 func (w *World) probe(i int) {
@@ -128,11 +129,25 @@ type Sink struct {
 	buf    []byte
 	failAt int // -1: never; else Write fails once that many bytes were accepted
 	name   string
+	// late holds what jobs left over from earlier programs wrote: it is
+	// their program's output, not the current one's.
+	late []byte
 }
 
 //go:norace
 func (s *Sink) Write(p []byte) (int, error) {
 	s.w.S.Yield(s.name + ".write")
+	if s.w.S.leftover() {
+		raceDisable()
+		s.mu.Lock()
+		for i := range p {
+			s.late = append(s.late, p[i])
+		}
+		s.mu.Unlock()
+		raceEnable()
+		s.w.probe(pLateWrite)
+		return len(p), nil
+	}
 	raceDisable()
 	s.mu.Lock()
 	var err error
@@ -663,6 +678,12 @@ func (w *World) OpenHandler(ctx context.Context, path string, flag int, perm os.
 	if path == "/dev/null" {
 		return devNull{}, nil
 	}
+	if path == "/dev/zero" {
+		return &endless{w: w, unit: "\x00"}, nil
+	}
+	if path == "/dev/yes" {
+		return &endless{w: w, unit: "y\n"}, nil
+	}
 	if f, ok := w.faultAt(fkOpen, "|open-enoent|open-eacces|open-enospc|open-fatal|"); ok {
 		switch f.Kind {
 		case "open-enoent":
@@ -700,6 +721,32 @@ func (w *World) OpenHandler(ctx context.Context, path string, flag int, perm os.
 	}
 	return of, nil
 }
+
+// endless is a device that always has more data and knows no deadlines
+// (like /dev/zero, or a regular file that another process keeps appending
+// to): a read from it never blocks, so only the interpreter's own context
+// checks can end a loop around it.
+type endless struct {
+	w    *World
+	unit string
+	pos  int
+}
+
+func (e *endless) Read(b []byte) (int, error) {
+	e.w.S.Yield("endless.read")
+	if e.w.isDead() {
+		return 0, errDead
+	}
+	n := 0
+	for n < len(b) && n < 64 {
+		b[n] = e.unit[e.pos%len(e.unit)]
+		e.pos++
+		n++
+	}
+	return n, nil
+}
+func (e *endless) Write(b []byte) (int, error) { return len(b), nil }
+func (e *endless) Close() error                { return nil }
 
 type devNull struct{}
 
